@@ -82,7 +82,7 @@ CFG = """CONSTANTS NProcs = {np}
           EmitOn = FALSE
           Sim = FALSE
 INIT Init
-NEXT Next
+NEXT NextAll
 {invs}
 CHECK_DEADLOCK FALSE
 """
@@ -104,41 +104,58 @@ def write_cfg(ctx, name, invs, **kw):
 
 
 def tlc_jobs(ctx, quick):
+    """start every TLC run of the tier at once; returns the executor's futures by name"""
     from concurrent.futures import ThreadPoolExecutor
     w = 2 if quick else 6
     jobs = {
         "inproc": lambda: run_tlc("Sidecar", "Sidecar_quick.cfg" if quick else "Sidecar_thorough.cfg", workers=w, timeout=3000, coverage=not quick, tag="C20-in"),
-        "xproc": lambda: run_tlc("Sidecar", "Sidecar_xproc_quick.cfg" if quick else "Sidecar_xproc_thorough.cfg", workers=w, timeout=3000, tag="C20-x"),
+        "xproc": lambda: run_tlc("Sidecar", "Sidecar_xproc_quick.cfg" if quick else "Sidecar_xproc_thorough.cfg", workers=w, timeout=3000, coverage=not quick, tag="C20-x"),
         "race": lambda: run_tlc("Sidecar", "Sidecar_asbuilt_race.cfg", workers=1, timeout=1500, tag="C20-race"),
-        "fix5": lambda: run_tlc("Sidecar", "Sidecar_fix5.cfg", workers=w, timeout=3000, tag="C20-fix5"),
     }
     for k, n in (("a", 60 if quick else 1500), ("b", 60 if quick else 1500), ("c", 40 if quick else 800)):
         jobs["sim_" + k] = (lambda k=k, n=n: run_tlc("Sidecar", f"Sidecar_sim_{k}.cfg", workers=1, timeout=3000, simulate=n, depth=300, seed=ctx.seed, tag="C20-sim" + k))
     if not quick:
+        jobs["fix5"] = lambda: run_tlc("Sidecar", "Sidecar_fix5.cfg", workers=w, timeout=3000, tag="C20-fix5")
         for (var, lay, inv, _) in MUTANTS:
             cfg = write_cfg(ctx, f"mut{var}.cfg", ["TypeOk", inv], nrg=2, var=var, atomic="FALSE", **LAYOUT[lay])
             jobs[f"mut{var}"] = (lambda cfg=cfg, var=var: run_tlc("Sidecar", cfg, workers=2, timeout=1500, tag=f"C20-mut{var}"))
         cfg6 = write_cfg(ctx, "fix6.cfg", ["TypeOk", "NoReaderError"], nrg=2, var=6, atomic="FALSE", **LAYOUT["x"])
         jobs["fix6"] = lambda: run_tlc("Sidecar", cfg6, workers=2, timeout=1500, tag="C20-fix6")
-    with ThreadPoolExecutor(max_workers=len(jobs)) as ex:
-        futs = {k: ex.submit(f) for k, f in jobs.items()}
-        return {k: f.result() for k, f in futs.items()}
+    ex = ThreadPoolExecutor(max_workers=len(jobs) + 2)
+    return ex, {k: ex.submit(f) for k, f in jobs.items()}
+
+
+def sim_results(ctx, futs):
+    cases = []
+    for k in ("a", "b", "c"):
+        s = futs["sim_" + k].result()
+        if s.error or s.violated:
+            tlc_must_pass(s, "simulate " + k)
+        m = re.search(r"The number of states generated: (\d+)", s.out)
+        s.generated = int(m.group(1)) if m else 0
+        s.distinct = len({chash(c["steps"]) for c in s.cases})
+        ctx.tlc_stats(s, f"Sidecar -simulate layout {k}: complete behaviours, safety invariants on every state, one CASE per behaviour")
+        cases += s.cases
+    return cases
 
 
 ACTIONS = ["CheckFresh", "ParquetRead", "LockInProcess", "RecheckFresh", "MkStaging", "WriteRg", "WriteComplete", "RemoveFinal",
            "RemoveFinalFile", "RemoveFinalDir", "RenameStaging", "CleanupStaging", "OpenRg"]
 
 
-def model_results(ctx, res, quick):
-    for k, label in (("inproc", "Sidecar as built, ONE process x 3 threads, file-by-file removal: every property incl. NoReaderError"),
-                     ("xproc", "Sidecar as built, several processes: no partial read, no wrong answer, one builder per process"),
-                     ("fix5", "Sidecar with a cross-process build lock (repair): every property incl. NoReaderError")):
+def model_results(ctx, futs, quick):
+    res = {k: f.result() for k, f in futs.items() if not k.startswith("sim_")}
+    labels = [("inproc", "Sidecar as built, ONE process, file-by-file removal: every property incl. NoReaderError"),
+              ("xproc", "Sidecar as built, several processes: no partial read, no wrong answer, one builder per process")]
+    if not quick:
+        labels.append(("fix5", "Sidecar with a cross-process build lock (repair): every property incl. NoReaderError"))
+    for k, label in labels:
         tlc_must_pass(res[k], k)
         ctx.tlc_stats(res[k], label)
     if not quick:
-        zero = [a for a in ACTIONS if res["inproc"].coverage.get(a, 0) == 0]
+        zero = [a for a in ACTIONS if res["inproc"].coverage.get(a, 0) + res["xproc"].coverage.get(a, 0) == 0]
         if zero:
-            raise vlib.ToolError(f"TLC coverage: actions never taken in the in-process model: {zero}")
+            raise vlib.ToolError(f"TLC coverage: actions never taken in the exhaustive models: {zero}")
     r = res["race"]
     if r.error:
         tlc_must_pass(r, "race")
@@ -158,17 +175,6 @@ def model_results(ctx, res, quick):
         f6 = res["fix6"]
         ctx.tlc_stats(f6, "Sidecar repair attempt 6 (never remove a fresh directory; check and removal not atomic)")
         ctx.notes.append(f"repair attempt 'check fresh before remove_dir_all' between processes: {'still refuted (' + f6.violated + '), the check and the removal are two steps' if f6.violated else 'holds'}")
-    cases = []
-    for k in ("a", "b", "c"):
-        s = res["sim_" + k]
-        if s.error or s.violated:
-            tlc_must_pass(s, "simulate " + k)
-        m = re.search(r"The number of states generated: (\d+)", s.out)
-        s.generated = int(m.group(1)) if m else 0
-        s.distinct = len({chash(c["steps"]) for c in s.cases})
-        ctx.tlc_stats(s, f"Sidecar -simulate layout {k}: complete behaviours, safety invariants on every state, one CASE per behaviour")
-        cases += s.cases
-    return cases
 
 
 # --------------------------------------------------------------------------------------------
@@ -426,13 +432,17 @@ SAFETY_POINTS = ("sidecar.recheck_fresh", "sidecar.mk_staging", "sidecar.open_rg
 
 def validate_traces(ctx, traces, stats):
     rej = vlib.validate_records(ctx, "SidecarTrace", "SidecarTrace.cfg", traces, name="sidecar-trace", max_rejects=6)
+    triage_rejects(ctx, rej, stats)
+    return rej
+
+
+def triage_rejects(ctx, rej, stats):
     for r in rej:
         if r["p"] in SAFETY_POINTS:
             ctx.violation({"kind": "trace", "rec": r},
                           f"process trace rejected at {r['p']} (thread {r['t']}): a second builder inside one process, a build without the re-check, or a row group opened before ensure_sidecar returned")
         else:
             stats["drift"][f"process trace deviates from SidecarTrace at {r['p']}"] += 1
-    return rej
 
 
 # --------------------------------------------------------------------------------------------
@@ -467,17 +477,42 @@ def run(ctx):
     quick = ctx.tier == "quick"
     stats = new_stats()
     cfgs = stress_configs(ctx, quick)
-    # the un-scheduled stress runs while TLC works
-    with ThreadPoolExecutor(max_workers=1) as ex:
-        fut = ex.submit(run_stress, ctx, cfgs, "stress")
-        cases = prepare(model_results(ctx, tlc_jobs(ctx, quick), quick))
-        souts = fut.result()
-    if len(cases) < (100 if quick else 1500):
-        raise vlib.ToolError(f"too few behaviours emitted ({len(cases)})")
-    outs = run_orch(ctx, cases, "replay", parts=4 if quick else 6)
-    judge_replay(ctx, cases, outs, stats)
-    traces = judge_stress(ctx, cfgs, souts, stats)
-    validate_traces(ctx, traces, stats)
+    # three pipelines run side by side: TLC design runs | TLC walks -> scheduled replay | stress -> trace validation
+    ex, futs = tlc_jobs(ctx, quick)
+    with ThreadPoolExecutor(max_workers=2) as side:
+        def stress_line():
+            souts = run_stress(ctx, cfgs, "stress")
+            st2 = new_stats()
+            c2 = vlib.Ctx(ctx.pid, ctx.tier, ctx.seed, LEVEL)
+            c2.work = ctx.work
+            traces = judge_stress(c2, cfgs, souts, st2)
+            rej = vlib.validate_records(c2, "SidecarTrace", "SidecarTrace.cfg", traces, name="sidecar-trace", max_rejects=6)
+            return souts, c2, st2, rej
+        sfut = side.submit(stress_line)
+        cases = prepare(sim_results(ctx, futs))
+        if len(cases) < (100 if quick else 1500):
+            raise vlib.ToolError(f"too few behaviours emitted ({len(cases)})")
+        outs = run_orch(ctx, cases, "replay", parts=4 if quick else 6)
+        judge_replay(ctx, cases, outs, stats)
+        model_results(ctx, futs, quick)
+        souts, c2, st2, rej = sfut.result()
+    ex.shutdown()
+    # fold the stress line's findings into this run's context
+    ctx.violations += c2.violations
+    for fid, h in c2.known_hits.items():
+        for _ in range(h["count"]):
+            ctx.known(fid, h["example"])
+    for k, v in c2.cov.items():
+        if k in ("evaluations", "states", "transitions", "traces_validated_against_impl", "trace_events_validated"):
+            ctx.add(k, v)
+        elif k == "tlc_runs":
+            ctx.cov.setdefault("tlc_runs", []).extend(v)
+    for k, v in st2.items():
+        if isinstance(v, collections.Counter):
+            stats[k].update(v)
+        elif isinstance(v, int):
+            stats[k] += v
+    triage_rejects(ctx, rej, stats)
     shutil.rmtree(os.path.join(ctx.work, "files"), ignore_errors=True)
 
     # vacuity
